@@ -507,8 +507,10 @@ def worker_main():
                 for alt in range(n_live):
                     if alt != chosen:
                         stack.append(list(key[:i]) + [alt])
+        sample = sorted(seen, key=len)[-1] if seen else ()
         sys.stdout.write(json.dumps({'schedules': n_sched, 'nontrivial': n_nontrivial, 'fails': fails[:20],
-                                     'exhausted': not stack, 'max_points': maxpoints}) + '\n')
+                                     'exhausted': not stack, 'max_points': maxpoints,
+                                     'sample': {'tuple': name, 'choices': list(sample)}}) + '\n')
         sys.stdout.flush()
 
 
@@ -604,6 +606,8 @@ class C17(runner.Prop):
                 raise RuntimeError(m)
             ctx.fail(o, m)
         if ctx.recording:
+            if res.get('sample') and len(ctx.samples) < 5 and 'cap' in case:
+                ctx.samples.append(res['sample'])
             ctx.evaluations += max(0, res['schedules'] - 1)
             for i in range(res['nontrivial']):
                 ctx.nontrivial_hashes.add(runner.jhash([case['tuple'], case.get('choices'), i]))
